@@ -390,6 +390,28 @@ func par1(c *Ctx) {
 			can["<non-constant>"] = true
 		}
 	}
+	// the look-ahead consumes nothing
+	{
+		consuming := false
+		for _, t := range canTests {
+			if t.consumes {
+				consuming = true
+			}
+		}
+		ir.Instrs(p.canAtom, func(in ssa.Instruction) {
+			if st, ok := in.(*ssa.Store); ok {
+				if _, fld, isF := ir.FieldAddr(st.Addr); isF && (fld == "tkpos" || fld == "matchedToken") {
+					consuming = true
+				}
+			}
+		})
+		for _, call := range ir.Calls(p.canAtom) {
+			if f := ir.Static(call); f != nil && (f == p.expect || f == p.back || f == p.atom || f == p.seq || f == p.choice) {
+				consuming = true
+			}
+		}
+		c.Check(!consuming, Q(p.canAtom)+":pure", p.canAtom.Pos(), "the look-ahead only tests the current token", "the look-ahead consumes (or un-reads) a token: the atom that follows would start one token late")
+	}
 	c.Check(sameSet(opening, can), "first-set(atom)=canAtom", p.canAtom.Pos(),
 		"both are {"+setStr(opening)+"}", fmt.Sprintf("atom opens on {%s} but canAtom announces {%s}", setStr(opening), setStr(can)))
 	// all kinds consumed somewhere
